@@ -28,6 +28,7 @@ import (
 	"google.golang.org/grpc/internal/verif/vk"
 	"google.golang.org/grpc/internal/verif/wire"
 	"google.golang.org/grpc/mem"
+	"google.golang.org/grpc/metadata"
 	"google.golang.org/grpc/resolver"
 	"google.golang.org/grpc/status"
 )
@@ -36,11 +37,16 @@ const (
 	c13MaxCalls  = 4
 	c13Unlimited = uint64(math.MaxUint64)
 	c13InitNone  = -1 // the server preface carries no MAX_CONCURRENT_STREAMS
+	// MAX_HEADER_LIST_SIZE menu: an ordinary gRPC request header list is a few
+	// hundred bytes, the "big" call carries c13BigMD extra bytes of metadata.
+	c13HLSSmall = uint32(2048)
+	c13HLSLarge = uint32(1 << 20)
+	c13BigMD    = 4096
 )
 
 // c13Ev is one event of a history.
 type c13Ev struct {
-	kind string // new srvEnd srvRST appClose cancel mcs goaway close
+	kind string // new newBig srvEnd srvRST appClose cancel mcs hls goaway close
 	k    int    // k-th open stream (ascending id) / k-th waiting call (issue order)
 	v    uint32 // MAX_CONCURRENT_STREAMS value
 }
@@ -51,6 +57,8 @@ func (e c13Ev) String() string {
 		return fmt.Sprintf("%s(%d)", e.kind, e.k)
 	case "mcs":
 		return fmt.Sprintf("mcs=%d", e.v)
+	case "hls":
+		return fmt.Sprintf("hls=%d", e.v)
 	}
 	return e.kind
 }
@@ -64,6 +72,7 @@ type c13Call struct {
 	// harness-side bookkeeping
 	wasParked bool // seen un-returned at a quiescent point
 	cancelled bool
+	big       bool // carries c13BigMD bytes of metadata
 }
 
 type c13Fail struct{ prop, class, desc string }
@@ -83,6 +92,8 @@ type c13Res struct {
 	relCancel, relGoAway, relClose, failedAfter int
 	maxOpen, admitted                           int
 	unackedSettings                             bool
+	// calls with an oversize header list
+	bigRejected, bigRejectedWhileParked, bigRejectedAtZero, bigOnWire, bigParked int
 }
 
 // c13Ledger is the wire-level concurrency ledger (server's point of view).
@@ -136,7 +147,9 @@ func c13LimStr(v uint64) string {
 
 // c13Run executes one history. choose is asked at every step for the index of
 // the next event among the applicable ones (-1 = stop).
-func c13Run(t *testing.T, init int, depth int, choose func(step int, evs []c13Ev) int) (res c13Res) {
+// hls0 is the MAX_HEADER_LIST_SIZE of the server preface (0 = not advertised:
+// then the header-list events are not part of the alphabet).
+func c13Run(t *testing.T, init int, hls0 uint32, depth int, choose func(step int, evs []c13Ev) int) (res c13Res) {
 	synctest.Test(t, func(t *testing.T) {
 		var (
 			mu       sync.Mutex
@@ -153,14 +166,19 @@ func c13Run(t *testing.T, init int, depth int, choose func(step int, evs []c13Ev
 		peer.AutoAckSettings = true
 		peer.AutoAckPing = true
 		led := &c13Ledger{open: map[uint32]*c13WireStream{}}
+		var ss0 []http2.Setting
 		if init == c13InitNone {
-			peer.WriteSettings()
 			led.sentMCS = append(led.sentMCS, c13Unlimited)
 		} else {
-			peer.WriteSettings(http2.Setting{ID: http2.SettingMaxConcurrentStreams, Val: uint32(init)})
+			ss0 = append(ss0, http2.Setting{ID: http2.SettingMaxConcurrentStreams, Val: uint32(init)})
 			led.sentMCS = append(led.sentMCS, uint64(init))
 		}
+		if hls0 != 0 {
+			ss0 = append(ss0, http2.Setting{ID: http2.SettingMaxHeaderListSize, Val: hls0})
+		}
+		peer.WriteSettings(ss0...)
 		advertised := led.sentMCS[0]
+		hlsNow := hls0
 		ctx, cancelAll := context.WithCancel(context.Background())
 		defer cancelAll()
 		dial := func(context.Context, string) (net.Conn, error) { return cconn, nil }
@@ -268,6 +286,9 @@ func c13Run(t *testing.T, init int, depth int, choose func(step int, evs []c13Ev
 			var evs []c13Ev
 			if len(calls) < c13MaxCalls {
 				evs = append(evs, c13Ev{kind: "new"})
+				if hls0 != 0 {
+					evs = append(evs, c13Ev{kind: "newBig"})
+				}
 			}
 			if !connGone {
 				for k := range wireOpen {
@@ -286,6 +307,13 @@ func c13Run(t *testing.T, init int, depth int, choose func(step int, evs []c13Ev
 					for _, v := range []uint32{0, 1, 2, 3} {
 						if uint64(v) != advertised {
 							evs = append(evs, c13Ev{kind: "mcs", v: v})
+						}
+					}
+					if hls0 != 0 {
+						if hlsNow == c13HLSSmall {
+							evs = append(evs, c13Ev{kind: "hls", v: c13HLSLarge})
+						} else {
+							evs = append(evs, c13Ev{kind: "hls", v: c13HLSSmall})
 						}
 					}
 					evs = append(evs, c13Ev{kind: "goaway"})
@@ -314,10 +342,14 @@ func c13Run(t *testing.T, init int, depth int, choose func(step int, evs []c13Ev
 			var newCall, target *c13Call
 
 			// ---- apply ----
+			openAtStart, waitingAtStart, limAtStart := len(led.open), len(waiting), led.limit()
 			switch ev.kind {
-			case "new":
+			case "new", "newBig":
 				cctx, cancel := context.WithCancel(ctx)
-				c := &c13Call{idx: len(calls), cancel: cancel}
+				c := &c13Call{idx: len(calls), cancel: cancel, big: ev.kind == "newBig"}
+				if c.big {
+					cctx = metadata.NewOutgoingContext(cctx, metadata.Pairs("verif-big", strings.Repeat("x", c13BigMD)))
+				}
 				mu.Lock()
 				calls = append(calls, c)
 				mu.Unlock()
@@ -351,6 +383,11 @@ func c13Run(t *testing.T, init int, depth int, choose func(step int, evs []c13Ev
 				peer.WriteSettings(http2.Setting{ID: http2.SettingMaxConcurrentStreams, Val: ev.v})
 				led.sentMCS = append(led.sentMCS, uint64(ev.v))
 				advertised = uint64(ev.v)
+			case "hls":
+				// a SETTINGS frame without MAX_CONCURRENT_STREAMS leaves the limit unchanged
+				peer.WriteSettings(http2.Setting{ID: http2.SettingMaxHeaderListSize, Val: ev.v})
+				led.sentMCS = append(led.sentMCS, led.sentMCS[len(led.sentMCS)-1])
+				hlsNow = ev.v
 			case "goaway":
 				goAwaySent = true
 				peer.WriteGoAway(1<<31-1, http2.ErrCodeNo, nil)
@@ -400,6 +437,21 @@ func c13Run(t *testing.T, init int, depth int, choose func(step int, evs []c13Ev
 				}
 			}
 			mu.Unlock()
+			// (a') the client's own count of active streams is the wire's: a call that
+			// was rejected locally (or is parked) holds no stream
+			if !connGone {
+				tr.mu.Lock()
+				nActive := len(tr.activeStreams)
+				var aids []uint32
+				for id := range tr.activeStreams {
+					aids = append(aids, id)
+				}
+				tr.mu.Unlock()
+				sort.Slice(aids, func(i, j int) bool { return aids[i] < aids[j] })
+				if nActive != len(led.open) {
+					fail("C13", "client-active-count-vs-wire", "after %s: the client holds %d active streams %v but %d streams are open on the wire %v", ev, nActive, aids, len(led.open), led.openIDs())
+				}
+			}
 			// (b) a parked call is released, with an error, by ctx cancel / GOAWAY / Close
 			stillWaiting := func(c *c13Call) bool {
 				for _, w := range waiting2 {
@@ -408,6 +460,22 @@ func c13Run(t *testing.T, init int, depth int, choose func(step int, evs []c13Ev
 					}
 				}
 				return false
+			}
+			if ev.kind == "newBig" {
+				switch {
+				case stillWaiting(newCall):
+					res.bigParked++
+				case newCall.err == nil:
+					res.bigOnWire++
+				default:
+					res.bigRejected++
+					if waitingAtStart > 0 {
+						res.bigRejectedWhileParked++
+					}
+					if limAtStart != c13Unlimited && uint64(openAtStart) >= limAtStart {
+						res.bigRejectedAtZero++
+					}
+				}
 			}
 			switch ev.kind {
 			case "cancel":
@@ -468,6 +536,9 @@ func c13Run(t *testing.T, init int, depth int, choose func(step int, evs []c13Ev
 		mu.Lock()
 		res.outcome = fmt.Sprintf("admitted=%d maxopen=%d parked=%v woken(close=%d,raise=%d) released(cancel=%d,goaway=%d,close=%d) refused-after-goaway/close=%d lowered-below-open=%v zero-limit=%v closed-by-peer=%v",
 			res.admitted, res.maxOpen, res.parkedEver, min(res.wokenByClose, 2), min(res.wokenByRaise, 2), min(res.relCancel, 1), min(res.relGoAway, 1), min(res.relClose, 1), min(res.failedAfter, 1), res.loweredBelowOpen, res.zeroLimit, peer.Closed() && !closedByApp)
+		if hls0 != 0 {
+			res.outcome += fmt.Sprintf(" oversize(rejected=%d,while-others-parked=%v,at-zero-quota=%v,on-wire=%d,parked=%d)", min(res.bigRejected, 2), res.bigRejectedWhileParked > 0, res.bigRejectedAtZero > 0, min(res.bigOnWire, 1), min(res.bigParked, 1))
+		}
 		mu.Unlock()
 	})
 	return res
@@ -523,6 +594,7 @@ func (o *c13Odo) next() bool {
 
 type c13Replay struct {
 	Init    int      `json:"init"`
+	HLS     uint32   `json:"hls"`
 	Choices []int    `json:"choices"`
 	Events  []string `json:"events"`
 }
@@ -534,29 +606,51 @@ func c13InitStr(init int) string {
 	return fmt.Sprint(init)
 }
 
+// c13Cfg is one initial configuration (server preface).
+type c13Cfg struct {
+	init int
+	hls  uint32
+}
+
+func (c c13Cfg) String() string {
+	if c.hls == 0 {
+		return c13InitStr(c.init)
+	}
+	return fmt.Sprintf("%s,hls=%d", c13InitStr(c.init), c.hls)
+}
+
 func TestVerif_C13_MaxStreams(t *testing.T) {
 	const P, Q = "C13", "C17"
 	r := vk.Start(t, "c13_maxstreams", "exploration", P, Q)
 	defer r.Finish()
 	depth := r.Pick(6, 8)
-	inits := []int{c13InitNone, 0, 1, 2, 3}
-	rule := fmt.Sprintf("every event history of length %d (the oracle runs after every event, so all shorter histories are covered as prefixes) for each initial MAX_CONCURRENT_STREAMS in %v (-1 = none advertised), over the alphabet {newStream (async, <=%d calls), server trailers END_STREAM on the k-th open stream, server RST_STREAM on it, application Close(err) of it, ctx-cancel of the k-th parked NewStream, server SETTINGS(MAX_CONCURRENT_STREAMS in {0,1,2,3} != last advertised), server GOAWAY(2^31-1), transport Close}, inapplicable events pruned; real http2Client against a scripted raw server, one synctest bubble per history, run to quiescence after every event", depth, inits, c13MaxCalls)
-	r.Rule(P, rule+"; non-trivial = a history in which a NewStream call was parked at some quiescent point or the limit was lowered below the open count")
+	// the header-list configurations have two more events per step: one level less
+	depthHLS := r.Pick(5, 7)
+	var cfgs []c13Cfg
+	for _, init := range []int{c13InitNone, 0, 1, 2, 3} {
+		cfgs = append(cfgs, c13Cfg{init: init})
+	}
+	for _, init := range []int{0, 1, 2, 3} {
+		cfgs = append(cfgs, c13Cfg{init: init, hls: c13HLSSmall})
+	}
+	rule := fmt.Sprintf("every event history of length %d (the oracle runs after every event, so all shorter histories are covered as prefixes) for each initial MAX_CONCURRENT_STREAMS in {none,0,1,2,3}, over the alphabet {newStream (async, <=%d calls), server trailers END_STREAM on the k-th open stream, server RST_STREAM on it, application Close(err) of it, ctx-cancel of the k-th parked NewStream, server SETTINGS(MAX_CONCURRENT_STREAMS in {0,1,2,3} != last advertised), server GOAWAY(2^31-1), transport Close}; plus every history of length %d for initial MAX_CONCURRENT_STREAMS in {0,1,2,3} with MAX_HEADER_LIST_SIZE=%d in the server preface, over the same alphabet extended by {newStream whose header list carries %d bytes of metadata (rejected locally while the advertised MAX_HEADER_LIST_SIZE is %d, sent while it is %d), server SETTINGS(MAX_HEADER_LIST_SIZE toggled between the two)}; inapplicable events pruned; real http2Client against a scripted raw server, one synctest bubble per history, run to quiescence after every event", depth, c13MaxCalls, depthHLS, c13HLSSmall, c13BigMD, c13HLSSmall, c13HLSLarge)
+	r.Rule(P, rule+"; non-trivial = a history in which a NewStream call was parked at some quiescent point, the limit was lowered below the open count, or a call was rejected locally for its header list size")
 	r.Rule(Q, rule+"; non-trivial = a history in which a parked NewStream call was woken (by a stream close or a SETTINGS raise) or released (ctx cancel, GOAWAY, Close)")
 	for _, p := range []string{P, Q} {
 		r.Assume(p, "history level only: inside one big step the goroutine order is the Go scheduler's at GOMAXPROCS=1 (schedules are the business of an E1 leg)")
 		r.Assume(p, "a new limit binds from the client's SETTINGS ACK in the client->server frame log (or from the next quiescent point at the latest); between the server's SETTINGS and that ACK the larger of the old and new value is allowed")
 	}
 	r.Assume(P, "a stream counts as open from its HEADERS until the client's RST_STREAM, the server's RST_STREAM, or END_STREAM in both directions (RFC 7540 5.1.2: half-closed streams count)")
+	r.Assume(P, "a NewStream call that fails locally (header list larger than the advertised MAX_HEADER_LIST_SIZE) holds no stream: it must not change what later calls are admitted; stream ids need only be odd and strictly increasing (gaps are not judged); len(http2Client.activeStreams) is read in-package only to cross-check it against the wire ledger's open count")
 
-	report := func(init int, o *c13Odo, res c13Res) {
+	report := func(cfg c13Cfg, o *c13Odo, res c13Res) {
 		if res.engine != "" {
-			r.EngineError("init=%s history=%v: %s", c13InitStr(init), res.events, res.engine)
+			r.EngineError("init=%s history=%v: %s", cfg, res.events, res.engine)
 		}
 		for _, f := range res.fails {
-			key := fmt.Sprintf("%s|init=%s|%s", f.class, c13InitStr(init), strings.Join(res.events, ","))
-			r.Violation(f.prop, key, fmt.Sprintf("%s\n  initial MAX_CONCURRENT_STREAMS=%s history: %s\n  client frames: %s", f.desc, c13InitStr(init), strings.Join(res.events, ","), res.log),
-				c13Replay{Init: init, Choices: append([]int(nil), o.path[:min(len(o.path), res.steps)]...), Events: res.events})
+			key := fmt.Sprintf("%s|init=%s|%s", f.class, cfg, strings.Join(res.events, ","))
+			r.Violation(f.prop, key, fmt.Sprintf("%s\n  initial MAX_CONCURRENT_STREAMS=%s history: %s\n  client frames: %s", f.desc, cfg, strings.Join(res.events, ","), res.log),
+				c13Replay{Init: cfg.init, HLS: cfg.hls, Choices: append([]int(nil), o.path[:min(len(o.path), res.steps)]...), Events: res.events})
 		}
 	}
 	if r.ReplayFile() != "" {
@@ -565,8 +659,9 @@ func TestVerif_C13_MaxStreams(t *testing.T) {
 			r.EngineError("replay: %v", err)
 			return
 		}
+		cfg := c13Cfg{init: rp.Init, hls: rp.HLS}
 		o := &c13Odo{path: rp.Choices, fixed: len(rp.Choices)}
-		res := c13Run(t, rp.Init, len(rp.Choices), func(step int, evs []c13Ev) int {
+		res := c13Run(t, cfg.init, cfg.hls, len(rp.Choices), func(step int, evs []c13Ev) int {
 			if step >= len(rp.Choices) {
 				return -1
 			}
@@ -574,24 +669,29 @@ func TestVerif_C13_MaxStreams(t *testing.T) {
 		})
 		r.Eval(P, 1)
 		r.Eval(Q, 1)
-		fmt.Printf("replay init=%s events=%v fails=%v outcome=%s\n  log=%s\n", c13InitStr(rp.Init), res.events, res.fails, res.outcome, res.log)
-		report(rp.Init, o, res)
+		fmt.Printf("replay init=%s events=%v fails=%v outcome=%s\n  log=%s\n", cfg, res.events, res.fails, res.outcome, res.log)
+		report(cfg, o, res)
 		return
 	}
 
 	const prefixDepth = 2
-	var hist, steps int64
+	var hist, steps, histHLS, rejectedHist int64
 	item := 0
 	capped := false
+	nsampBig := 0
 outer:
-	for _, init := range inits {
+	for _, cfg := range cfgs {
+		d := depth
+		if cfg.hls != 0 {
+			d = depthHLS
+		}
 		// phase 1: every shard enumerates the (few) prefixes of length prefixDepth
 		var prefixes [][]int
 		po := &c13Odo{}
 		for {
-			res := c13Run(t, init, prefixDepth, func(step int, evs []c13Ev) int { return po.choose(step, len(evs)) })
+			res := c13Run(t, cfg.init, cfg.hls, prefixDepth, func(step int, evs []c13Ev) int { return po.choose(step, len(evs)) })
 			if res.engine != "" || po.bad != "" {
-				r.EngineError("prefix enumeration init=%s path=%v: %s %s", c13InitStr(init), po.path, res.engine, po.bad)
+				r.EngineError("prefix enumeration init=%s path=%v: %s %s", cfg, po.path, res.engine, po.bad)
 				break outer
 			}
 			prefixes = append(prefixes, append([]int(nil), po.path...))
@@ -611,33 +711,45 @@ outer:
 					capped = true
 					break outer
 				}
-				res := c13Run(t, init, depth, func(step int, evs []c13Ev) int { return o.choose(step, len(evs)) })
+				res := c13Run(t, cfg.init, cfg.hls, d, func(step int, evs []c13Ev) int { return o.choose(step, len(evs)) })
 				if o.bad != "" || res.nondet != "" {
-					r.EngineError("non-deterministic applicability, init=%s: %s %s", c13InitStr(init), o.bad, res.nondet)
+					r.EngineError("non-deterministic applicability, init=%s: %s %s", cfg, o.bad, res.nondet)
 					break outer
 				}
 				hist++
+				if cfg.hls != 0 {
+					histHLS++
+				}
 				steps += int64(res.steps)
-				hkey := c13InitStr(init) + "|" + strings.Join(res.events, ",")
+				hkey := cfg.String() + "|" + strings.Join(res.events, ",")
 				r.Outcome(P, res.outcome)
-				if res.parkedEver || res.loweredBelowOpen {
+				if res.parkedEver || res.loweredBelowOpen || res.bigRejected > 0 {
 					r.Nontrivial(P, hkey)
 					if res.wokenByClose+res.wokenByRaise > 0 && res.relCancel+res.relGoAway+res.relClose > 0 {
-						r.Sample(P, map[string]any{"init": c13InitStr(init), "history": res.events, "client_frames": res.log, "outcome": res.outcome})
+						r.Sample(P, map[string]any{"init": cfg.String(), "history": res.events, "client_frames": res.log, "outcome": res.outcome})
+					}
+				}
+				if res.bigRejected > 0 {
+					rejectedHist++
+					if nsampBig < 1 && res.bigRejectedWhileParked > 0 && res.wokenByClose+res.wokenByRaise > 0 {
+						if sh, _ := r.Shard(); sh < 2 {
+							nsampBig++
+							r.Sample(P, map[string]any{"init": cfg.String(), "history": res.events, "client_frames": res.log, "outcome": res.outcome})
+						}
 					}
 				}
 				woke := res.wokenByClose+res.wokenByRaise+res.relCancel+res.relGoAway+res.relClose > 0
 				if woke {
 					r.Nontrivial(Q, hkey)
 					if res.wokenByClose > 0 && res.wokenByRaise > 0 {
-						r.Sample(Q, map[string]any{"init": c13InitStr(init), "history": res.events, "client_frames": res.log, "outcome": res.outcome})
+						r.Sample(Q, map[string]any{"init": cfg.String(), "history": res.events, "client_frames": res.log, "outcome": res.outcome})
 					}
 				}
 				r.Outcome(Q, fmt.Sprintf("parked=%v woken-by-close=%v woken-by-raise=%v released(cancel=%v,goaway=%v,close=%v)", res.parkedEver, res.wokenByClose > 0, res.wokenByRaise > 0, res.relCancel > 0, res.relGoAway > 0, res.relClose > 0))
 				if res.unackedSettings {
 					r.AddInt(P, "histories_with_unacked_settings", 1)
 				}
-				report(init, o, res)
+				report(cfg, o, res)
 				if !o.next() {
 					break
 				}
@@ -652,4 +764,7 @@ outer:
 			r.Cap(p, "time budget reached before all histories were run")
 		}
 	}
+	r.AddInt(P, "histories_with_header_list_limit", histHLS)
+	r.AddInt(P, "histories_with_locally_rejected_call", rejectedHist)
+	r.Set(P, "depth_bound_header_list_configs", depthHLS)
 }
